@@ -84,7 +84,16 @@ func init() {
 		lda := max(1, n) + e.pad(0)
 		a := e.mat("a", m, n, lda)
 		jpvt := e.ints("jpvt", n, true, func(i int) int { return e.g.Intn(n+1) - 1 })
-		tau := e.f64("tau", k)
+		// The doc comment used to say "[tau] must have length min(m,n), otherwise
+		// Dgeqp3 will panic" while the code accepts a longer tau: as long as the
+		// comment says so, tau is an exact-length operand.
+		tauExact := docSays("Dgeqp3", "It must have length min(m,n), otherwise")
+		var tau *op[float64]
+		if tauExact {
+			tau = e.f64x("tau", k)
+		} else {
+			tau = e.f64("tau", k)
+		}
 		mn := 3*n + 1
 		if k == 0 {
 			mn = 1
@@ -95,8 +104,14 @@ func init() {
 		if e.at("jpvtElement", chk) {
 			jpvt.s[e.g.Intn(n)] = []int{-2, n}[e.c.Bad]
 		}
+		ftau := func() []float64 {
+			if tauExact {
+				return fx(e, "Tau", tau, chk)
+			}
+			return fs(e, "shortTau", tau, chk)
+		}
 		e.run(func() {
-			impl.Dgeqp3(e.fdim("m", m), e.fdim("n", n), fs(e, "shortA", a, chk), e.fld("lda", lda, max(1, n)), fx(e, "Jpvt", jpvt, chk), fs(e, "shortTau", tau, chk), e.fwork(work), e.flw(lw, mn))
+			impl.Dgeqp3(e.fdim("m", m), e.fdim("n", n), fs(e, "shortA", a, chk), e.fld("lda", lda, max(1, n)), fx(e, "Jpvt", jpvt, chk), ftau(), e.fwork(work), e.flw(lw, mn))
 		})
 	})
 
